@@ -13,7 +13,11 @@ import anyio
 logging.disable(logging.CRITICAL)
 
 CHILD = os.path.join(os.path.dirname(os.path.dirname(os.path.abspath(__file__))), "children", "child.py")
-BEHAVIOURS = ["well_behaved", "exit_at:0", "exit_at:1", "exit_at:2", "ignore_term", "no_read", "flood", "close_stdout", "close_stdin", "slow_start", "unstartable"]
+BEHAVIOURS = ["well_behaved", "exit_at:0", "exit_at:1", "exit_at:2", "ignore_term", "no_read", "flood", "close_stdout", "close_stdin", "slow_start", "unstartable",
+              "unstartable:blank", "unstartable:blankdir"]
+UNSTARTABLE = {"unstartable": ("/nonexistent/verif-no-such-binary", ["x"]),
+               "unstartable:blank": ("verif-no-such-server --stdio", []),          # a whole command line in `command`
+               "unstartable:blankdir": ("/nonexistent dir/verif server", [])}
 EXIT_PATHS = ["normal", "exception", "outerCancel", "timeoutAround"]
 MOMENTS = ["beforeFirstMessage", "requestInFlight", "afterResponse"]
 EXTRA_SCENARIOS = [{"beh": b, "path": p, "moment": "bigWritesQueued"} for b in ("no_read", "well_behaved", "ignore_term") for p in EXIT_PATHS]
@@ -76,8 +80,8 @@ def run_scenario(sc):
         pids.append(p.pid)
         return ProcProxy(p, evs, t0)
 
-    if beh == "unstartable":
-        params = StdioParameters(command="/nonexistent/verif-no-such-binary", args=["x"])
+    if beh in UNSTARTABLE:
+        params = StdioParameters(command=UNSTARTABLE[beh][0], args=list(UNSTARTABLE[beh][1]))
     else:
         params = StdioParameters(command=sys.executable, args=["-B", CHILD, beh], env={"PATH": os.environ.get("PATH", ""), "LOG_LEVEL": "ERROR"})
 
